@@ -15,6 +15,7 @@ import (
 	"crypto/rand"
 	"crypto/rsa"
 	"crypto/x509"
+	"encoding/binary"
 	"encoding/pem"
 	"fmt"
 	"go/ast"
@@ -32,6 +33,7 @@ import (
 
 	"github.com/gopcua/opcua/ua"
 	"github.com/gopcua/opcua/uapolicy"
+	"github.com/gopcua/opcua/uasc"
 )
 
 func interopPHash(h func() hash.Hash, secret, seed []byte, n int) []byte {
@@ -252,6 +254,98 @@ func interopMakeLen(file, fn, v string) (int, error) {
 	return val, nil
 }
 
+// ---- asymmetric chunk securing across key sizes (the OPN request and response), with a toy cipher of the right sizes
+
+func interopToyAlgo(localKB, remoteKB int) *uapolicy.EncryptionAlgorithm {
+	const minpad = 42
+	mac := func(n int, m []byte) []byte {
+		var sum byte
+		for i, b := range m {
+			sum += b * byte(i%7+1)
+		}
+		out := make([]byte, n)
+		for i := range out {
+			out[i] = sum + byte(i)
+		}
+		return out
+	}
+	return uapolicy.VerifNewAlgorithm(remoteKB, remoteKB-minpad, localKB, remoteKB, 32, uapolicy.VerifCipher{
+		Enc: func(src []byte) ([]byte, error) { // each plaintext block of remoteKB-42 bytes becomes remoteKB bytes
+			p := remoteKB - minpad
+			var out []byte
+			for i := 0; i < len(src); i += p {
+				e := i + p
+				if e > len(src) {
+					e = len(src)
+				}
+				blk := append([]byte{}, src[i:e]...)
+				for len(blk) < remoteKB {
+					blk = append(blk, 0xEE)
+				}
+				out = append(out, blk...)
+			}
+			return out, nil
+		},
+		Dec: func(src []byte) ([]byte, error) { // the receiver's own key size is its local one
+			if len(src)%localKB != 0 {
+				return nil, fmt.Errorf("toy: ciphertext is not a whole number of %d-byte blocks", localKB)
+			}
+			var out []byte
+			for i := 0; i < len(src); i += localKB {
+				out = append(out, src[i:i+localKB-minpad]...)
+			}
+			return out, nil
+		},
+		Sign: func(m []byte) ([]byte, error) { return mac(localKB, m), nil },
+		Verify: func(m, sg []byte) error {
+			if !bytes.Equal(mac(remoteKB, m), sg) {
+				return fmt.Errorf("toy: bad signature")
+			}
+			return nil
+		},
+	})
+}
+
+// interopChunkRT secures OPN-sized chunks on a sender holding a senderKB-byte key for a receiver holding a recvKB-byte
+// key with the REAL uasc.signAndEncrypt and opens them with the REAL verifyAndDecrypt.
+func interopChunkRT(senderKB, recvKB int) bool {
+	uri := ua.SecurityPolicyURIBasic256Sha256
+	for _, bl := range []int{0, 1, 50, 131, 132, 133, 400, 1000} {
+		alice := uasc.VerifNewInstance(uri, ua.MessageSecurityModeSignAndEncrypt, interopToyAlgo(senderKB, recvKB), 7, 0, 0)
+		bob := uasc.VerifNewInstance(uri, ua.MessageSecurityModeSignAndEncrypt, interopToyAlgo(recvKB, senderKB), 7, 0, 0)
+		cert := make([]byte, 700)
+		thumb := make([]byte, 20)
+		ah := uasc.NewAsymmetricSecurityHeader(uri, cert, thumb)
+		ahb, err := ah.Encode()
+		if err != nil {
+			return false
+		}
+		body := make([]byte, bl)
+		for i := range body {
+			body[i] = byte(i*5 + bl)
+		}
+		raw := make([]byte, 0, 12+len(ahb)+8+bl)
+		raw = append(raw, 'O', 'P', 'N', 'F', 0, 0, 0, 0, 7, 0, 0, 0)
+		raw = append(raw, ahb...)
+		raw = append(raw, 1, 0, 0, 0, 1, 0, 0, 0)
+		raw = append(raw, body...)
+		binary.LittleEndian.PutUint32(raw[4:], uint32(len(raw)))
+		msg := &uasc.Message{MessageHeader: &uasc.MessageHeader{
+			Header:                   uasc.NewHeader(uasc.MessageTypeOpenSecureChannel, uasc.ChunkTypeFinal, 7),
+			AsymmetricSecurityHeader: ah,
+			SequenceHeader:           uasc.NewSequenceHeader(1, 1)}}
+		out, err := alice.SignAndEncrypt(msg, raw)
+		if err != nil {
+			return false
+		}
+		_, dec, err := bob.VerifyAndDecrypt(out)
+		if err != nil || len(dec) != 8+bl || !bytes.Equal(dec[8:], body) {
+			return false
+		}
+	}
+	return true
+}
+
 func genInterop(repo string) (string, error) {
 	var b strings.Builder
 	b.WriteString("(* GENERATED by go/cmd/translate/interop_tables.go by calling uapolicy.Symmetric/Asymmetric and parsing server/session_service.go, client.go. Do not edit. *)\n")
@@ -305,6 +399,40 @@ func genInterop(repo string) (string, error) {
 			b.WriteString(";\n")
 		}
 		fmt.Fprintf(&b, " (%q%%string, %v)", shortName(u), ok)
+	}
+	b.WriteString("\n].\n\n")
+
+	// constructors with different key sizes on the two ends, and the OPN chunk round trip across key sizes
+	b.WriteString("(* (policy, local key bytes, remote key bytes, (Asymmetric accepts, plaintext block size, nonce length)) by calling uapolicy.Asymmetric *)\nDefinition asym_mixed : list (string * Z * Z * (bool * Z * Z)) := [\n")
+	sizes := []int{128, 256, 384, 512}
+	first := true
+	for _, u := range uris {
+		for _, l := range sizes {
+			for _, r := range sizes {
+				lk, rk := fakeKey(l), fakeKey(r)
+				a, err := uapolicy.Asymmetric(u, lk, &rk.PublicKey)
+				if !first {
+					b.WriteString(";\n")
+				}
+				first = false
+				if err != nil {
+					fmt.Fprintf(&b, " (%q%%string, %d, %d, (false, 0, 0))", shortName(u), l, r)
+				} else {
+					fmt.Fprintf(&b, " (%q%%string, %d, %d, (true, %d, %d))", shortName(u), l, r, a.PlaintextBlockSize(), a.NonceLength())
+				}
+			}
+		}
+	}
+	b.WriteString("\n].\n\n(* (sender key bytes, receiver key bytes, an OpenSecureChannel chunk secured by uasc.signAndEncrypt is opened by the peer's verifyAndDecrypt) *)\nDefinition opn_chunk_rt : list (Z * Z * bool) := [\n")
+	first = true
+	for _, l := range sizes {
+		for _, r := range sizes {
+			if !first {
+				b.WriteString(";\n")
+			}
+			first = false
+			fmt.Fprintf(&b, " (%d, %d, %v)", l, r, interopChunkRT(l, r))
+		}
 	}
 	b.WriteString("\n].\n\n")
 
